@@ -367,9 +367,7 @@ func (h *sizeHandler) Handle(ctx context.Context, q *dns.Msg, meta server.QueryM
 	if err != nil {
 		return nil
 	}
-	h.mu.Lock()
-	h.expected = append(h.expected, hx.Tuple(hx.Ni(int(q.Id)), hx.Ni(len(wire)), hx.N(hx.Sum(wire))))
-	h.mu.Unlock()
+	_ = wire
 	b, err := pack(m)
 	if err != nil {
 		return nil
@@ -395,7 +393,18 @@ func runServer(w *hx.Writer, id string, rng *hx.RNG, k int) {
 		return
 	}
 	defer c.Close()
+	// what every query that is SENT must be answered with (not what the handler happened to see)
+	for i := 0; i < k; i++ {
+		qid := uint16(i + 1)
+		m := bigMsg(qid, h.sizes[qid], h.seed+uint64(qid))
+		m.Compress = false
+		if wire, err := m.Pack(); err == nil {
+			h.expected = append(h.expected, hx.Tuple(hx.Ni(int(qid)), hx.Ni(len(wire)), hx.N(hx.Sum(wire))))
+		}
+	}
+	coalesce := rng.Chance(1, 2) // all queries in one Write: several frames (and maybe part of one) per server read
 	go func() {
+		var all []byte
 		for i := 0; i < k; i++ {
 			q := new(dns.Msg)
 			q.SetQuestion("example.org.", dns.TypeTXT)
@@ -404,12 +413,19 @@ func runServer(w *hx.Writer, id string, rng *hx.RNG, k int) {
 			buf := make([]byte, 2+len(wire))
 			binary.BigEndian.PutUint16(buf, uint16(len(wire)))
 			copy(buf[2:], wire)
-			c.Write(buf)
+			if coalesce {
+				all = append(all, buf...)
+			} else {
+				c.Write(buf)
+			}
+		}
+		if coalesce {
+			c.Write(all)
 		}
 	}()
 	// independent framer
 	var observed []string
-	c.SetReadDeadline(time.Now().Add(20 * time.Second))
+	c.SetReadDeadline(time.Now().Add(8 * time.Second))
 	for i := 0; i < k; i++ {
 		var hdr [2]byte
 		if _, err := io.ReadFull(c, hdr[:]); err != nil {
